@@ -1,4 +1,4 @@
-"""C14 -- rope's view of source text agrees with the tokenizer (RCA rules R14.1-R14.10)."""
+"""C14 -- rope's view of source text agrees with the tokenizer (RCA rules R14.1-R14.13)."""
 from __future__ import annotations
 
 import ast
@@ -21,6 +21,7 @@ EXPLANATION = (
     "and line splitters of the text scanners delimit lines by explicit '\\n', never by str.splitlines().  R14.7: a trailing backslash sets the continuation flag only under a test that the last token -- a "
     "variable bound in that function -- is not '#'.  R14.8 (=R20.5): the word finder consults the hard-keyword oracle only.  R14.9: the f-string test of real_code, folded over every tokenizer string prefix, keeps exactly the prefixes containing f/F.  Line-index inversion, the "
     "logical-line algorithm itself and the word/primary scanners are arithmetic over strings and are not decided."
+    " R14.11: the language of rope's string-literal body pattern equals the tokenizer's, lookaheads included (exact, derivative engine sa/rederiv.py).  R14.12: the scanners feeding the bracket counters match all six bracket characters.  R14.13: in the logical-line scanner '#' and brackets act only on CFG paths where the in-string state was tested off."
 )
 ASSUMPTIONS = ["tokenize's own Comment pattern and _all_string_prefixes() are the oracle for the token language"]
 
@@ -134,6 +135,85 @@ def check(ctx, res) -> None:
                 f"prefix {variants} + string body is matched whole by the ignored-region pattern" if not bad else
                 f"string literals with prefix {bad} are not matched whole by get_any_string_pattern: part of the literal is treated as code")
     res.floor("R14.2", "prefix groups", len(groups), 8)
+
+    # ---- R14.11 the string-literal BODY language: exact equality with the tokenizer's (lookaheads included)
+    from .. import rederiv
+
+    try:
+        body_pat = folder.call_function("rope.base.codeanalyze.get_string_pattern_with_prefix", [""])
+    except fold.Unfoldable as e:
+        raise AnalysisError(f"get_string_pattern_with_prefix('') not foldable: {e}")
+    for getter in ("get_string_pattern", "get_formatted_string_pattern", "get_any_string_pattern"):
+        g = idx.need_func(f"rope.base.codeanalyze.{getter}")
+        rets = [r for r in walk_local(g.node) if isinstance(r, ast.Return)]
+        if not (len(rets) == 1 and isinstance(rets[0].value, ast.Call) and call_name(rets[0].value) == "get_string_pattern_with_prefix"):
+            raise AnalysisError(f"anchor=codeanalyze.{getter} no longer returns get_string_pattern_with_prefix(prefix)")
+    tok_body = "|".join(['"""' + tokenize.Double3, "'''" + tokenize.Single3,
+                         r"'[^\n'\\]*(?:\\.[^\n'\\]*)*'", r'"[^\n"\\]*(?:\\.[^\n"\\]*)*"'])
+    if r"'[^\n'\\]*(?:\\.[^\n'\\]*)*'" not in tokenize.String:
+        raise AnalysisError("anchor=tokenize.String no longer has the single-line body this rule copies")
+    eng = rederiv.Engine()
+    try:
+        # the tokenizer applies its patterns line by line and joins continuation lines itself: '.' after a backslash
+        # stands for any character, the newline included
+        t_term = eng.term(tok_body, dotall=True)
+        r_term = eng.term(body_pat)
+        fwd = eng.included(t_term, r_term)
+        bwd = eng.included(r_term, t_term)
+    except rederiv.Undecided as e:
+        raise AnalysisError(f"string body pattern uses a construct the derivative engine does not model: {e}")
+    res.add("R14.11", "string-body|tokenizer<=rope", fwd[0], "rope/base/codeanalyze.py",
+            f"every string literal body of the tokenizer is in the language of rope's pattern ({fwd[2]} derivative states)" if fwd[0] else
+            f"the literal {fwd[1]!r} is one STRING token for the tokenizer but is not matched whole by rope's string pattern: real_code / ignored_regions "
+            "split it, and part of the literal is treated as code", counter_example=fwd[1])
+    res.add("R14.11", "string-body|rope<=tokenizer", bwd[0], "rope/base/codeanalyze.py",
+            f"every text rope's pattern takes for a string literal is one for the tokenizer ({bwd[2]} derivative states)" if bwd[0] else
+            f"rope's string pattern matches {bwd[1]!r} as one literal, the tokenizer does not: code after the real end of the literal is blanked as string text",
+            counter_example=bwd[1])
+
+    # ---- R14.12 (complements R14.4) the scanners that feed the bracket nesting counters stop at all six bracket characters
+    scanners = []
+    for modname, owner in (("rope.base.simplify", None), ("rope.base.codeanalyze", "_CustomGenerator")):
+        u = next(u for u in idx.units.values() if u.modname == modname)
+        for x in ast.walk(u.tree):
+            if isinstance(x, ast.Assign) and isinstance(x.value, ast.Call) and call_name(x.value) == "compile" and x.value.args \
+                    and isinstance(x.value.args[0], ast.Constant) and isinstance(x.value.args[0].value, str) \
+                    and isinstance(x.targets[0], ast.Name) and x.targets[0].id in ("_parens", "_main_tokens"):
+                scanners.append((u, x, x.value.args[0].value))
+    if len(scanners) < 2:
+        raise AnalysisError("anchor=simplify._parens / _CustomGenerator._main_tokens scanner patterns not found")
+    for u, x, pat in scanners:
+        nfa = rca.build(pat, erase_assertions=True)
+        missing = [ch for ch in "()[]{}" if not rca.accepts(nfa, ch)]
+        res.add("R14.12", f"{x.targets[0].id}|scanner", not missing, f"{u.rel}:{x.lineno}",
+                "the scanner stops at every bracket character" if not missing else
+                f"the scanner pattern does not match {missing}: the nesting counter never sees that kind of bracket, so a line break inside it ends the logical line",
+                )
+
+    # ---- R14.13 inside a string literal nothing is a comment or a bracket: the logical-line scanner acts on '#' and on
+    # brackets only on paths where the in-string state was tested and is off
+    al = idx.need_func("rope.base.codeanalyze._CustomGenerator._analyze_line")
+    acfg = CFG(al.node)
+    n13 = 0
+    for nd in acfg.nodes:
+        if nd.ast is None or nd.kind != "stmt":
+            continue
+        is_break = isinstance(nd.ast, ast.Break)
+        is_count = isinstance(nd.ast, ast.AugAssign) and is_self_attr(nd.ast.target) and "count" in nd.ast.target.attr
+        if not (is_break or is_count):
+            continue
+        gs = acfg.guards(nd.id)
+        if is_break and not any(isinstance(t, ast.Compare) and any(isinstance(c, ast.Constant) and c.value == "#" for c in ast.walk(t)) and pol for t, pol in gs):
+            continue
+        n13 += 1
+        ok = any(is_self_attr(t, "in_string") and not pol for t, pol in gs)
+        what = "stops at '#'" if is_break else f"updates {ast.unparse(nd.ast.target)}"
+        res.add("R14.13", f"_analyze_line|outside-strings|{'comment' if is_break else ast.unparse(nd.ast)}", ok, f"{al.unit.rel}:{nd.lineno}",
+                f"the scanner {what} only when it is not inside a string literal" if ok else
+                f"the scanner {what} without having tested that it is outside a string literal: a '#' or a bracket INSIDE a string is taken for code, "
+                "the rest of the line (the closing quote included) is skipped or the bracket depth is wrong, and logical lines disagree with the tokenizer",
+                function=al.qualname)
+    res.floor("R14.13", "comment/bracket actions in _analyze_line", n13, 3)
 
     # ---- R14.3
     tok_c, rope_c = rca.build(tokenize.Comment), rca.build(cmt)
